@@ -235,6 +235,23 @@ pub fn run(rep: &mut Report, backend: Bk, thorough: bool) {
         }
     }
 
+    // a hostile admin puts an invalid group-data extension into an otherwise valid commit
+    {
+        let pk_of = |n: &str| w.pks_by_name.get(n).and_then(|h| nostr::PublicKey::from_hex(h).ok());
+        let base_ext = with_mdk!(sender_a, m => m.load_mls_group(&gid)).ok().flatten().and_then(|g| mdk_core::extension::NostrGroupDataExtension::from_group(&g).ok());
+        if let Some(base_ext) = base_ext {
+            for (label, bytes) in crate::shapes::hostile_group_data(&base_ext, if thorough { 1 } else { 9 }) {
+                let s = sender_a.fork();
+                match raw_commit(&s, &gid, &CommitContent::RawGroupData(bytes), &pk_of, None, now_ts - 5) {
+                    Ok(e) => muts.push(("admin-commit-with-group-data".into(), label, e)),
+                    Err(e) => rep.outcome(&format!("admin-commit-not-buildable:{label}:{}", e.0.chars().take(40).collect::<String>())),
+                }
+            }
+        } else {
+            rep.machinery_errors.push("c06: cannot read the group-data extension of the sender".into());
+        }
+    }
+
     // deliver everything to every receiver state
     let work: Vec<(usize, usize)> = (0..states.len()).flat_map(|s| (0..muts.len()).map(move |m| (s, m))).collect();
     let next = std::sync::atomic::AtomicUsize::new(0);
@@ -271,7 +288,14 @@ pub fn run(rep: &mut Report, backend: Bk, thorough: bool) {
                     Ok(x) => result_kind(x),
                     Err(_) => "PANIC".into(),
                 };
-                let after = r.obs(&wids);
+                // reading the state back runs the same decoders: a panic there is the same finding, not a harness crash
+                let after = match std::panic::catch_unwind(std::panic::AssertUnwindSafe(|| r.obs(&wids))) {
+                    Ok(a) => a,
+                    Err(_) => {
+                        findings.lock().unwrap().push((format!("C06|panic|{kname}|{label}|{slabel}|while-reading-the-state-afterwards"), format!("after a {kname} with {label} ({kind}) in state {slabel}, reading the group state panics"), json!({"event_kind": kname, "mutation": label, "state": slabel, "result": kind})));
+                        continue;
+                    }
+                };
                 *outcomes.lock().unwrap().entry(format!("{kname}:{label}:{slabel}:{kind}")).or_insert(0) += 1;
                 if kind == "PANIC" {
                     findings.lock().unwrap().push((format!("C06|panic|{kname}|{label}|{slabel}"), format!("process_message panics on a {kname} with {label} in state {slabel}"), json!({"event_kind": kname, "mutation": label, "state": slabel, "event": ev, "backend": format!("{backend:?}")})));
